@@ -101,3 +101,26 @@ def field_kept_for_connection(rel, field, ctor, uses):
             if not re.search(r'(&mut\s+self\s*\.\s*%s|\b%s\b)' % (re.escape(field), re.escape(field)), c.group(1)):
                 fails.append('a call of %s does not receive the connection\'s %s' % (u, field))
     return {'status': 'fail' if fails else 'ok', 'fails': fails, 'src': '%s:1' % rel}
+
+
+def no_truncating_cast_of_term_integers(rels):
+    """In the Elixir wrapper sources, an integer taken out of a term (`.as_integer()?`, an i64) is never narrowed with an
+    `as` cast (which truncates silently) - narrowing goes through a checked conversion.  The wrapper functions walk
+    BTreeMap<OwnedTerm,_> with string-keyed atoms: Kani did not finish on them (1000 s at the needed unwind bound) and
+    a Verus unit would assume the whole map/atom machinery; the defect class is syntactic, so is the obligation."""
+    fails = []
+    seen = 0
+    for rel in rels:
+        path = os.path.join(os.environ.get('VERIF_REPO', '/repo'), rel)
+        try:
+            src = open(path).read()
+        except OSError as e:
+            return {'status': 'undecided', 'reason': str(e)}
+        msk = mask(src)
+        seen += len(re.findall(r'\.as_integer\s*\(\s*\)', msk))
+        for m in re.finditer(r'\.as_integer\s*\(\s*\)\s*\?\s*as\s+(u8|u16|u32|i8|i16|i32|usize)\b', msk):
+            line = src.count('\n', 0, m.start()) + 1
+            fails.append('%s:%d: `.as_integer()? as %s` truncates' % (rel, line, m.group(1)))
+    if seen == 0:
+        return {'status': 'undecided', 'reason': 'no as_integer() call left in %s: the wrappers changed shape' % ', '.join(rels)}
+    return {'status': 'fail' if fails else 'ok', 'fails': fails, 'src': '%s:1' % rels[0]}
